@@ -239,7 +239,9 @@ P["C04"] = dict(
     claimed=True,
     technique="static analysis: call-graph cycle analysis with explicit fn-pointer edges, dominance of the depth "
               "guard, provenance of re-entering calls, ranking functions for every loop of the resolution code",
-    decides=["R-REC-GUARD (limit-room): the nesting limit is at least 50 macro expansions at the level cost of one expansion",
+    decides=["R-DEFAULT-LATEST: in chase a default met later in the chase (given further out) replaces the earlier one - no write of the default is guarded by the default so far or by the look-up flag",
+             "R-FORWARD-SELF/known-only: a self-forwarded argument is dropped only when the caller has a value for it",
+             "R-REC-GUARD (limit-room): the nesting limit is at least 50 macro expansions at the level cost of one expansion",
              "R-PIPELINE-NO-NAME: operator_name answers the empty string for pipelines before it looks at the parameters",
              "R-CHASE-MISSING: chase answers `not given` only where the flag that a $name look-up is in progress is known to be false",
              "R-NEST-UNIT: the nesting counter of RawParameters::next advances only where a macro is expanded (known finding on the current tree: it advances for every frame, so nesting deeper than 48 / 19 levels is refused)",
